@@ -249,6 +249,7 @@ type c04pSim struct {
 
 	permitSeen, disturbed, nt bool
 	nSuccess                  int
+	afterUnreserve            bool
 }
 
 func (s *c04pSim) logf(f string, a ...any) { s.hist = append(s.hist, fmt.Sprintf(f, a...)) }
@@ -358,6 +359,9 @@ func (s *c04pSim) checkPartition(t *rapid.T) {
 					sig := "partition:member-in-no-set"
 					if len(in) > 1 {
 						sig = "partition:member-in-several-sets:" + strings.Join(in, "+")
+						if s.afterUnreserve {
+							sig += ":after-unreserve"
+						}
 					}
 					s.violation(t, sig, "gang %s: member %s is in sets %v", g.id, key, in)
 					return
@@ -407,6 +411,11 @@ func (s *c04pSim) expectReject(p *c04pPod) (active bool, undecided []*c04pPod) {
 		return false, nil
 	}
 	if g.effPolicy == extension.GangMatchPolicyOnceSatisfied && s.once {
+		return false, nil
+	}
+	if p.st == c04pBound {
+		// roll-back of a member the cache already knows as bound: not decided by the statement, both behaviours accepted
+		s.c.Class("rollback-of-bound-member(strict reject not asserted)")
 		return false, nil
 	}
 	for _, q := range s.pods {
@@ -465,6 +474,7 @@ func (s *c04pSim) unreserve(t *rapid.T, p *c04pPod, why string) {
 		p.phase = c04pQueue
 	}
 	p.decision, p.schedObj = c04pDecNone, nil
+	s.afterUnreserve = true
 	if s.permitSeen {
 		s.disturbed = true
 	}
@@ -593,8 +603,9 @@ func TestVerifC04PluginRelease(t *testing.T) {
 			if s.dead {
 				return
 			}
+			s.afterUnreserve = false
 			switch rapid.SampledFrom([]string{"permit", "permit", "permit", "permit", "create", "bindOK", "bindOK", "postBind", "postBind", "nodeUpdate", "nodeUpdate",
-				"timeout", "unreserveRejected", "unreserveRejected", "bindFail", "delete", "touch", "postFilterFail", "reserveFail"}).Draw(t, "rule") {
+				"timeout", "unreserveRejected", "unreserveRejected", "bindFail", "delete", "touch", "postFilterFail", "reserveFail", "lateBindError"}).Draw(t, "rule") {
 			case "create":
 				if len(s.pods) < 8 {
 					create(s.gangs[rapid.IntRange(0, len(s.gangs)-1).Draw(t, "gang")])
@@ -678,6 +689,16 @@ func TestVerifC04PluginRelease(t *testing.T) {
 					}
 					s.noRelease(t, "AfterPostFilter("+p.key+")")
 					s.checkReject(t, active, und, "afterPostFilter", p)
+				}
+			case "lateBindError":
+				// the bind was persisted but the binding cycle ends in an error: Unreserve instead of PostBind
+				if p := pick(t, "lateErrorPod", func(p *c04pPod) bool { return p.phase == c04pPostBindDue }); p != nil {
+					c.ClassIf(p.sawNode, "unreserve-after-informer-saw-bind")
+					c.ClassIf(!p.sawNode, "unreserve-after-bind-before-informer-saw-it")
+					s.unreserve(t, p, "error after the bind was persisted")
+					if !p.deleted {
+						p.phase = c04pDone
+					}
 				}
 			case "bindOK":
 				if p := pick(t, "bindPod", func(p *c04pPod) bool { return binding(p) && !p.deleted }); p != nil {
